@@ -67,6 +67,7 @@ class Prop(object):
     shrink_budget = 200
     shrink_data = True
     case_timeout = 30
+    object_histories = True        # see drive.HISTORY
 
     def gen(self, rng, ctx):
         raise NotImplementedError
@@ -82,9 +83,28 @@ class Prop(object):
     def shrinkable(self, case):
         return 'formula' in case
 
+    def judge_with_history(self, case):
+        """judge() with object prehistories switched on (drive.HISTORY), seeded by the case itself so that a
+        replay of the case re-creates the same prehistories."""
+        import random, zlib
+        from rtverif import drive
+        if not self.object_histories:
+            return self.judge(case)
+        drive.begin_case(random.Random(zlib.crc32(repr(sorted(case.items(), key=lambda kv: kv[0])).encode())))
+        try:
+            v = self.judge(case)
+            if v is not None and v.viol and drive.LAST_HISTORY:
+                note = ' [prehistory of the monitor objects of this case: %s]' % '; '.join(drive.LAST_HISTORY[:4])
+                v.viol = [(m, k, msg + note) for m, k, msg in v.viol]
+            if v is not None and drive.LAST_HISTORY:
+                v.info['cases-with-object-prehistory'] = 1
+            return v
+        finally:
+            drive.end_case()
+
     def check(self, ctx, case):
         case = self.normalise(case)
-        v, timed_out = guarded(self.judge, self.case_timeout, case)
+        v, timed_out = guarded(self.judge_with_history, self.case_timeout, case)
         if timed_out == 'memory':
             ctx.violation('memory-exhausted', 'the case drove the process into its address-space cap (6 GB): %s' %
                           repr(self.brief(case))[:500], self.brief(case), None)
@@ -113,7 +133,7 @@ class Prop(object):
                 small, t_o = guarded(self.shrink, 120, case, mech)
                 if t_o or small is None:
                     small = case
-                v2, t_o = guarded(self.judge, self.case_timeout, small)
+                v2, t_o = guarded(self.judge_with_history, self.case_timeout, small)
                 if t_o:
                     v2, small = Verdict(), case
                 for m2, k2, msg2 in v2.viol:
@@ -141,7 +161,7 @@ class Prop(object):
 
     def shrink(self, case, mech):
         def fails(c):
-            v = self.judge(c)
+            v = self.judge_with_history(c)
             return (not v.skip) and mech in v.mechs()
         return lang.shrink(case, fails, budget=self.shrink_budget, shrink_data=self.shrink_data)
 
